@@ -32,7 +32,7 @@ Spec == Init /\ [][Next]_vars
 \* the normal forms are idempotent: a second round trip changes nothing
 Idempotent == phase = "decoded2" => val = (IF codec = "json" THEN NFItem(orig) ELSE GFItem(orig))
 \* no property vanishes or appears in the normal form
-SameTerms == (val.k = "obj" /\ orig.k = "obj") => DOMAIN val.p = DOMAIN orig.p /\ val.g = orig.g
+SameTerms == (val.k = "obj" /\ orig.k = "obj") => DOMAIN val.p = DOMAIN orig.p /\ val.g \in {orig.g, HomeOf(orig)}     \* (the struct the type name names, when it is a larger one)
 \* JSON normal form is coarser than the gob one
 Coarser == phase = "decoded" /\ codec = "gob" => NFItem(val) = NFItem(orig)
 =============================================================================
